@@ -296,19 +296,45 @@ def ceilings(R, ctx):
 def duplication(R, ctx):
     f = ctx.f
     b = ctx.body(r'^<primary_writer::multi_writer::MultiWriter as writers::log_writer::LogWriter>::write$')
-    EFF = [r'util::write_buffered$', r'^std::io::_e?print$', r'^fnptr:', r'LogWriter>::write$', r'LogWriter::write$', r'duplication_to_std(err|out)$']
-    NI = [r'util::write_buffered$', r'duplication_to_std(err|out)$', r'LogWriter>::write$', r'util::eprint_err$']
+    # the duplication settings are read from the two atomics; whichever private getters / newtypes wrap them are inlined, the u8 is
+    # turned into a Duplicate by the crate's own From<u8> (identity on 0..=6: R13.4), so a row is identified by the value loaded
+    LOAD = r'atomic::Atomic(U8|::<u8>)::load$'
+    EFF = [r'util::write_buffered$', r'^std::io::_e?print$', r'^fnptr:', r'LogWriter>::write$', r'LogWriter::write$', LOAD]
+    NI = [r'util::write_buffered$', r'LogWriter>::write$', r'util::eprint_err$']
+    fb = ctx.body(r'^<logger::Duplicate as std::convert::From<u8>>::from$')
+    u8map = {}
+    for c_ in range(7):
+        rws = FDI(f).run(fb.path, args=[Const(c_, 'u8')])
+        if len(rws) == 1 and isinstance(rws[0].result, Agg):
+            u8map[str(c_)] = rws[0].result.variant
+    if len(u8map) != 7:
+        raise CheckError(f"R13.3: From<u8> for Duplicate not evaluable on 0..=6 ({u8map})")
     per = {'stderr': {}, 'stdout': {}}
     problems = []
     for L in LVLS:
-        I = FDI(f, effects=EFF, no_inline=NI, models={r"^log::Record::<'a>::level$": level_model(L)}, max_rows=50000)
+        I = FDI(f, effects=EFF, no_inline=NI, models={r"^log::Record::<'a>::level$": level_model(L)}, max_rows=50000, max_steps=20000)
         rows = I.run(b.path)
         for r in rows:
             if r.undecided:
                 R.bad('R13.3', f"{b.path}|duplication", f"UNDECIDED: {r.undecided}", where=b.loc())
                 return
-            de = next((v for a, v in r.cond if a.startswith('variant(') and 'duplication_to_stderr#' in a), None)
-            do = next((v for a, v in r.cond if a.startswith('variant(') and 'duplication_to_stdout#' in a), None)
+            de = do = None
+            skip = False
+            for i_, e in enumerate(r.effects):
+                if re.search(LOAD, e[0]):
+                    src = r.long(e[1][0])
+                    arm = r.get(f"{e[0]}#{i_ + 1}")
+                    if arm is None:
+                        continue
+                    if str(arm) not in u8map:
+                        skip = True         # a value outside 0..=6: From<u8> panics (never stored: R13.4)
+                        continue
+                    if 'stderr' in src:
+                        de = u8map[str(arm)]
+                    elif 'stdout' in src:
+                        do = u8map[str(arm)]
+            if skip:
+                continue
             err_eff = [e for e in r.effects if (e[0].endswith('write_buffered') and 'stderr' in e[1][3]) or e[0] == 'std::io::_eprint']
             out_eff = [e for e in r.effects if (e[0].endswith('write_buffered') and 'stdout' in e[1][3]) or e[0] == 'std::io::_print']
             fmts = [e for e in r.effects if e[0].startswith('fnptr:')]
@@ -357,17 +383,21 @@ def dup_roundtrip(R, ctx):
     R.check('R13.4', 'Duplicate<->u8', not bad and len(adt['variants']) == 7, "From<u8> inverts `as u8` on all 7 variants",
             f"Duplicate::from(u8) does not invert `as u8`: {bad[:2]} (a stored duplication level is read back as another one)", where=b.loc(),
             sample={'variants': [(v['name'], v['discr']) for v in adt['variants']]})
-    # field pairing
+    # field pairing: the setter of a stream stores into the atomic that R13.3 sees loaded for that stream's emission
+    # (helpers / newtype methods around the atomic are inlined)
+    STORE = r'atomic::Atomic(U8|::<u8>)::store$'
     for stream in ('stderr', 'stdout'):
-        for fn, kind in ((f'adapt_duplication_to_{stream}', 'store'), (f'duplication_to_{stream}', 'load')):
-            bb_ = ctx.body(rf'^primary_writer::multi_writer::MultiWriter::{fn}$')
-            p = ctx.ip.prov(bb_.path)
-            ok = False
-            for bb, t in bb_.calls():
-                if re.search(rf'atomic::Atomic(U8|::<u8>)::{kind}$', callee_name(t)):
-                    chains = receiver_field_chain(bb_, p, t, 0)
-                    ok = any(c and c[-1] == f'duplicate_{stream}' for c in chains)
-            R.check('R13.4', f"{fn}|field", ok, f"{fn} {kind}s duplicate_{stream}", f"{fn} does not {kind} the field duplicate_{stream}", where=bb_.loc())
+        fn = f'adapt_duplication_to_{stream}'
+        bb_ = ctx.body(rf'^primary_writer::multi_writer::MultiWriter::{fn}$')
+        rows = FDI(f, effects=[STORE]).run(bb_.path, arg_names=['self', 'dup'])
+        ok = bool(rows)
+        for r in rows:
+            st_ = [e for e in r.effects if re.search(STORE, e[0])]
+            dv = r.get('variant(dup)')
+            want = next((str(int(v['discr'])) for v in adt['variants'] if v['name'] == dv), None)
+            ok = ok and not r.undecided and len(st_) == 1 and f'duplicate_{stream}' in r.long(st_[0][1][0]) and \
+                (r.long(st_[0][1][1]) == want or 'dup' in r.long(st_[0][1][1])) and ('stdout' if stream == 'stderr' else 'stderr') not in r.long(st_[0][1][0])
+        R.check('R13.4', f"{fn}|field", ok, f"{fn} stores duplicate_{stream}", f"{fn} does not store its argument into the field duplicate_{stream}", where=bb_.loc())
     mw = ctx.body(r'^<primary_writer::multi_writer::MultiWriter as writers::log_writer::LogWriter>::write$')
 
 
